@@ -6,13 +6,28 @@ import (
 
 type tagIfchangedNode struct {
 	watchedExpr []IEvaluator
-	lastValues  []*Value
-	lastContent []byte
 	thenWrapper *NodeWrapper
 	elseWrapper *NodeWrapper
 }
 
+// tagIfchangedState is what an ifchanged tag remembers from its previous
+// evaluation within one execution. It is kept in the execution context, not
+// in the compiled node.
+type tagIfchangedState struct {
+	lastValues  []*Value
+	lastContent []byte
+}
+
 func (node *tagIfchangedNode) Execute(ctx *ExecutionContext, writer TemplateWriter) *Error {
+	if ctx.tagState == nil {
+		ctx.tagState = make(map[any]any)
+	}
+	state, _ := ctx.tagState[node].(*tagIfchangedState)
+	if state == nil {
+		state = &tagIfchangedState{}
+		ctx.tagState[node] = state
+	}
+
 	if len(node.watchedExpr) == 0 {
 		// Check against own rendered body
 
@@ -23,10 +38,10 @@ func (node *tagIfchangedNode) Execute(ctx *ExecutionContext, writer TemplateWrit
 		}
 
 		bufBytes := buf.Bytes()
-		if !bytes.Equal(node.lastContent, bufBytes) {
+		if !bytes.Equal(state.lastContent, bufBytes) {
 			// Rendered content changed, output it
 			writer.Write(bufBytes)
-			node.lastContent = bufBytes
+			state.lastContent = bufBytes
 		}
 	} else {
 		nowValues := make([]*Value, 0, len(node.watchedExpr))
@@ -39,16 +54,16 @@ func (node *tagIfchangedNode) Execute(ctx *ExecutionContext, writer TemplateWrit
 		}
 
 		// Compare old to new values now
-		changed := len(node.lastValues) == 0
+		changed := len(state.lastValues) == 0
 
-		for idx, oldVal := range node.lastValues {
+		for idx, oldVal := range state.lastValues {
 			if !oldVal.EqualValueTo(nowValues[idx]) {
 				changed = true
 				break // we can stop here because ONE value changed
 			}
 		}
 
-		node.lastValues = nowValues
+		state.lastValues = nowValues
 
 		if changed {
 			// Render thenWrapper
